@@ -220,6 +220,38 @@ func checks() map[string]*Check {
 		Rule:   "lease-based reads are issued continuously at the old leader across partitions (from everyone / from the voters only, keeping a non-voter) and leader changes, with election timeout 600 ms, lease 100 ms, injected delay <= 15 ms per direction; successful lease reads are judged by the sequence-number staleness oracle (no clock), and a read invoked more than 5 lease durations after the last voter reply reached the old leader must not return data. Non-trivial: successful lease reads exist",
 		Assume: append([]string{"precondition measured per run: lease + max round trip + max stall < election timeout"}, windowAssume...)})
 
+	add(&Check{ID: "C14", Level: "fault_enumeration", Props: []string{"C14", "C01", "C02", "C06", "C07", "C08", "C10"},
+		Runs: []RunSpec{
+			{Scen: "w1", Params: "snapshots=1,crash=1,torn=1", Quick: 64, Thorough: 2400},
+			{Scen: "w1", Params: "snapshots=1,crash=1,torn=1,voters=3,clients=6,pad=40000", Quick: 24, Thorough: 1200},
+			{Scen: "w1", Params: "crash=1,torn=1", Quick: 24, Thorough: 1200},
+			{Scen: "w2.acklose", Quick: 8, Thorough: 300},
+			{Scen: "w2.votes", Quick: 8, Thorough: 300},
+			{Scen: "puppet.rv", Params: "cases=20", Quick: 4, Thorough: 100},
+			{Scen: "puppet.is", Params: "cases=20", Quick: 4, Thorough: 100},
+			{Scen: "store.log", Params: "ops=12", Quick: 8, Thorough: 100},
+			{Scen: "store.snap", Params: "ops=3", Quick: 4, Thorough: 50},
+			{Scen: "store.state", Params: "ops=8", Quick: 4, Thorough: 50},
+		},
+		NT: func(r *Result) bool {
+			return (cnt(r, "node.crash") > 0 && cnt(r, "node.new") > cnt(r, "boot")) || cnt(r, "images") > 0
+		},
+		Rule:   "crash-fork at storage-operation boundaries chosen by the seed: classes {log append, log truncate, log compact, log discard, term/vote write, snapshot create, snapshot write, snapshot close, snapshot discard} x {before, after} plus torn appends (a byte prefix of the in-flight append kept) and asynchronous kills, in every role; after each crash a node is created and started over the directory image; oracles: NewRaft and Start return nil, no fatal abort or panic for the rest of the run, the safety oracles of C01/C02/C06/C07/C08/C10 stay silent, and the restarted node catches up within the step bounds of C15. Coverage cells (class x position x role) are counted in coverage_cells. Instants INSIDE a storage operation (mid-compaction, mid-discard, between the writes of a snapshot, mid-rename sequences) are enumerated at syscall granularity by the strace-replay sweeps of C12/C13, which are part of this check: a node must be constructible over every such image and find the right disk state. Non-trivial: at least one crash followed by a restart, or crash images judged",
+		Assume: append([]string{"instants inside Compact/DiscardEntries/snapshot Close are covered at storage level (C12/C13), in cluster runs the crash falls at operation boundaries"}, clusterAssume...)})
+	add(&Check{ID: "C15", Level: "exploration", Props: []string{"C15"},
+		Runs: []RunSpec{
+			{Scen: "w1", Params: "crash=1", Quick: 32, Thorough: 800},
+			{Scen: "w1", Params: "snapshots=1,crash=1", Quick: 48, Thorough: 1200},
+			{Scen: "w1", Params: "snapshots=1,crash=1,voters=3,pad=70000", Quick: 16, Thorough: 400},
+			{Scen: "w2.takeover", Quick: 16, Thorough: 400},
+			{Scen: "w2.figure8", Quick: 8, Thorough: 200},
+			{Scen: "codec.e2e", Params: "size=4718592", Quick: 1, Thorough: 2},
+			{Scen: "puppet.is", Params: "cases=30", Quick: 16, Thorough: 400},
+		},
+		NT:     func(r *Result) bool { return cnt(r, "c15.quiesce_ok")+cnt(r, "codec.e2e_runs")+cnt(r, "puppet.install_handler_waited") > 0 },
+		Rule:   "bounded-progress restatement, counted in protocol steps seen by the network (not seconds): after the heal of a fault schedule, (a) within 40 candidacy rounds per running voter a leader exists that then completes 20 heartbeat rounds unchallenged, (b) every running member reaches that leader's applied index within 300 completed exchanges on its link (log repair or snapshots below and above the chunk size), (c) a fresh write is acknowledged within 100 heartbeat exchanges. A wall-clock watchdog firing first is inconclusive. Non-trivial: the quiesce phase completed after a non-empty fault schedule",
+		Assume: append([]string{"'eventually' is restated as a step bound; no finite run decides the unbounded statement"}, clusterAssume...)})
+
 	storeAssume := []string{
 		"crash model: process death — every completed write(2) persists, in order; images are synthesised by replaying the strace-recorded syscalls (self-validated: the full replay must be byte-identical to the directory the workload left)",
 		"byte prefixes of a write: all when <= 128 bytes, else the first/last 8 and every 64th",
